@@ -126,6 +126,13 @@ def main():
             r = try_change("seeded/" + sid, ["git", "apply", os.path.join(d, "patch.diff")], checks, with_suite)
             if r:
                 results.append(r)
+                meta["checked_with"] = {"how": "git -C /repo apply seeded/%s/patch.diff; bin/check <ID> quick; "
+                                               "git -C /repo checkout -- ." % sid,
+                                        "results": {c: {"exit": v["exit"], "violation_keys": v["keys"]}
+                                                    for c, v in r["checks"].items()},
+                                        "detected": any(v["exit"] == 1 for v in r["checks"].values())}
+                with open(os.path.join(d, "meta.json"), "w") as fh:
+                    json.dump(meta, fh, indent=1)
     elif args[0] == "specs":
         sys.path.insert(0, os.path.join(VERIF, "mutants"))
         import specs
